@@ -64,7 +64,9 @@ func newPMFromFile(options plugintypes.OperatorOptions) (plugintypes.Operator, e
 		DFA:                  false,
 	})
 
-	m, _ := memoizeDo(options.Memoizer, "pmFromFile:"+strings.Join(options.Path, ",")+filepath, func() (any, error) { return builder.Build(lines), nil })
+	// Keyed by the content read, not by the file name: the same relative name resolves to
+	// different files under different roots (WithRootFS) while the cache is process wide.
+	m, _ := memoizeDo(options.Memoizer, "pmFromFile:"+listDigest(lines), func() (any, error) { return builder.Build(lines), nil })
 
 	return &pm{matcher: m.(ahocorasick.AhoCorasick), minLen: minPatternLen(lines)}, nil
 }
